@@ -15,6 +15,7 @@
 package ice
 
 import (
+	"bytes"
 	"fmt"
 
 	"github.com/RoaringBitmap/roaring"
@@ -112,6 +113,13 @@ func (d *Dictionary) Close() error {
 func (d *Dictionary) Iterator(a segment.Automaton,
 	startKeyInclusive, endKeyExclusive []byte) segment.DictionaryIterator {
 	if d.fst != nil {
+		// an empty key range enumerates nothing (the FST iterator would
+		// still return a term equal to the start key)
+		if startKeyInclusive != nil && endKeyExclusive != nil &&
+			bytes.Compare(startKeyInclusive, endKeyExclusive) >= 0 {
+			return emptyDictionaryIterator
+		}
+
 		rv := &DictionaryIterator{
 			d: d,
 		}
